@@ -227,6 +227,17 @@ def run(rep):
                 fl = th.free_parameters()
                 if cov is None or set(cov) != {(a, b) for a in fl for b in fl} or any(cov[k] != want.get(k) for k in cov):
                     problems.append(('covariance-not-copied', '', '', ''))
+            if fit.minuit.covariance is not None:
+                # the covsync model: entries for exactly free x free, looked up by NAME in the minimiser's matrix
+                mnames = list(fit.minuit.parameters)
+                fl = list(th.free_parameters())
+                mat = [float(fit.minuit.covariance[a, b]) for a in mnames for b in mnames]
+                line = 'c11.covsync N %s F %s M %s' % (' '.join(mnames), ' '.join(fl), ' '.join(map(common.f2hex, mat)))
+                mo = common.run_driver([line])[0]
+                real_cov = ' '.join('%s,%s=%s' % (k[0], k[1], common.f2hex(v)) for k, v in (cov or {}).items()) or '-'
+                rep.case('covsync', (kind, tuple(fl), k), sample=dict(theory=kind, free=fl, entries=len(cov or {})))
+                if mo != real_cov:
+                    problems.append(('covsync-model-mismatch', '', real_cov[:120], mo[:120]))
             chi1 = float(th.chisq(g.DataSet(pts)))
             if abs(chi1 - fit.minuit.fval) > 1e-9 * max(1.0, abs(chi1)):
                 problems.append(('chisq!=fval', '', chi1, fit.minuit.fval))
